@@ -19,6 +19,33 @@ def norm_idx(t):
     return t.replace("[-1]", "[1]").replace("[-2]", "[0]")
 
 
+def role_mapping(m):
+    """locals of a Sliced product method by ROLE: the two names unpacked from self.slices -> start_slices /
+    end_slices, the zeros buffer -> Y, the product with self.A -> output (the textual shape of the method is then
+    compared independently of how the locals are spelled)"""
+    mapping = {}
+    for st in df.body_nodes(m.node):
+        if not isinstance(st, ast.Assign) or len(st.targets) != 1:
+            continue
+        t, v = st.targets[0], st.value
+        if isinstance(t, ast.Tuple) and len(t.elts) == 2 and all(isinstance(e, ast.Name) for e in t.elts) and nospace(v) == "self.slices":
+            mapping.setdefault(t.elts[0].id, "start_slices")
+            mapping.setdefault(t.elts[1].id, "end_slices")
+        elif isinstance(t, ast.Name) and isinstance(v, ast.Call) and isinstance(v.func, ast.Attribute) and v.func.attr == "zeros":
+            mapping.setdefault(t.id, "Y")
+        elif isinstance(t, ast.Name) and isinstance(v, ast.BinOp) and isinstance(v.op, ast.MatMult) and "self.A" in (nospace(v.left), nospace(v.right)):
+            mapping.setdefault(t.id, "output")
+    return mapping if len(set(mapping.values())) == len(mapping) else {}
+
+
+def ctext(node, mapping):
+    t = ast.parse(ast.unparse(node))
+    for n in ast.walk(t):
+        if isinstance(n, ast.Name) and n.id in mapping:
+            n.id = mapping[n.id]
+    return nospace(t)
+
+
 def class_attrs(idx, ci):
     """attributes available on instances of ci: assigned on self anywhere in the class (and bases), methods, class-level names"""
     out = set()
@@ -97,7 +124,7 @@ def run(idx, rep, tier):
             return "any"
         if isinstance(pt, ast.MatchClass):
             n = nospace(pt.cls)
-            return "int" if n == "int" else ("list" if n == "list" else ("sliceish" if n in ("slice", "xnp.ndarray", "np.ndarray") else n))
+            return "int" if n == "int" else ("list" if n == "list" else ("sliceish" if n == "slice" or n.endswith(".ndarray") else n))
         if isinstance(pt, ast.MatchOr):
             ks = {kind_of(x) for x in pt.patterns}
             return "sliceish" if ks == {"sliceish"} else "|".join(sorted(ks))
@@ -141,7 +168,8 @@ def run(idx, rep, tier):
                 (mm, "(self.A.shape[1],{x}.shape[1])", "end_slices", "self.A@Y", "output[start_slices]"),
                 (rm, "({x}.shape[0],self.A.shape[0])", "...,start_slices", "Y@self.A", "output[...,end_slices]")):
             x = m.params[1]
-            src = norm_idx(nospace(m.node))
+            roles = role_mapping(m)
+            src = norm_idx(ctext(m.node, roles))
             unpack = "start_slices,end_slices=self.slices" in src
             z = next((c for c in df.calls(m.node) if df.is_xnp_call(c) == "zeros"), None)
             shp_node = next((k.value for k in z.keywords if k.arg == "shape"), None) if z is not None else None
@@ -149,7 +177,7 @@ def run(idx, rep, tier):
                 shp_node = z.args[0]
             shp = norm_idx(nospace(shp_node)) if shp_node is not None else "?"
             upd = next((c for c in df.calls(m.node) if df.is_xnp_call(c) == "update_array"), None)
-            upd_idx = ",".join(nospace(a_) for a_ in upd.args[2:]) if upd is not None else "?"
+            upd_idx = ",".join(ctext(a_, roles) for a_ in upd.args[2:]) if upd is not None else "?"
             ok = unpack and shp == norm_idx(buf_shape.format(x=x)) and upd_idx == scatter and parent_prod in src and gather in src
             rep.decide(ok, "slice-buffers", f"Sliced.{m.name}", f"buffer {shp}, scatter by [{upd_idx}], product `{parent_prod if parent_prod in src else '?'}`, gather `{gather if gather in src else '?'}`" +
                        ("" if ok else f"; required buffer {buf_shape.format(x=x)}, scatter [{scatter}], {parent_prod}, {gather}"), detail="" if ok else "buffers", locs=[idx.loc(m.module, m.node)])
